@@ -1445,7 +1445,16 @@ def r9_declared_body_limit_is_the_effective_limit(ctx):
     c11.r4_effective_limit(Renamed(ctx, "C19.R9", "the body limit written on the declaration is the limit enforced for that endpoint"))
 
 
-RULES = [("C19.R9", r9_declared_body_limit_is_the_effective_limit), ("C19.R1", r1_one_producer), ("C19.R2a", r2a_validate), ("C19.R2b", r2b_emission), ("C19.R3", r3_builders),
+def r10_document_uses_the_version_filter_everywhere(ctx):
+    """`documented under the declared tags … for the versions it is declared for`: every scan of the endpoints made while generating
+    the document for version v is filtered by v (operations and the top-level tag list alike).  This is C06.R1, re-evaluated here
+    (adversary change C19-F collected ad hoc tags over endpoints(None))."""
+    from . import c06
+    from .lib_c01 import Renamed
+    c06.r1_same_filter(Renamed(ctx, "C19.R10", "everything the document for version v says about endpoints (operations, tags) is drawn from the endpoints declared for v"))
+
+
+RULES = [("C19.R10", r10_document_uses_the_version_filter_everywhere), ("C19.R9", r9_declared_body_limit_is_the_effective_limit), ("C19.R1", r1_one_producer), ("C19.R2a", r2a_validate), ("C19.R2b", r2b_emission), ("C19.R3", r3_builders),
          ("C19.R4", r4_new_vs_stub), ("C19.R5", r5_tables), ("C19.R6", r6_document), ("C19.R7", r7_versions), ("C19.R8", r8_doc_lines)]
 
 _M = "dropshot_endpoint/src/metadata.rs"
@@ -1633,3 +1642,4 @@ SELFTEST = [
     {'name': 'versions-default-by-map-or', 'kind': 'benign', 'edits': [('dropshot_endpoint/src/metadata.rs', '                versions: versions\n                    .map(|h| h.into_inner())\n                    .unwrap_or(VersionRange::All),\n            })\n        } else {\n            unreachable!', '                versions: versions.map_or(VersionRange::All, ParseWrapper::into_inner),\n            })\n        } else {\n            unreachable!')], 'why': 'behaviour-preserving: map(..).unwrap_or(All) written as map_or(All, ParseWrapper::into_inner)'},
     {'name': 'map-or-form-ignores-versions', 'kind': 'mutant', 'expect': ['C19.R2a'], 'edits': [('dropshot_endpoint/src/metadata.rs', '                versions: versions\n                    .map(|h| h.into_inner())\n                    .unwrap_or(VersionRange::All),\n            })\n        } else {\n            unreachable!', '                versions: versions.map_or(VersionRange::All, |_| VersionRange::All),\n            })\n        } else {\n            unreachable!')], 'why': '† (map_or form) a declared `versions` range is replaced by All'},
 ]
+LEVEL_TEXT += " Also (R10 = C06.R1): every endpoint scan of the document generator is filtered by the document's version."
